@@ -523,6 +523,11 @@ class IOLoop(Configurable):
                 # (If we neither cancel nor wait for the task, a warning
                 # will be logged).
                 assert future_cell["future"] is not None
+                if future_cell["future"].done():
+                    # The function finished in this same iteration: the stop()
+                    # scheduled through add_future is already on its way, and a
+                    # second one would stay queued and end the next run early.
+                    return
                 if not future_cell["future"].cancel():
                     self.stop()
 
